@@ -1,16 +1,22 @@
-(** C01 — theorems (statements in full; proofs in Proofs.v).
+(** C01 — theorems (statements in full; proofs in Proofs.v, Tables.v, Chain.v, Complete.v,
+    Ledger.v; vocabulary — [valid_chain], [ops_on], [scanned_blocks], [ledger], [all_scanned],
+    [orphans_dead], [settled], [same_notes], [notes_incl] — in Spec.v).
 
-    Model covered: [Model.run] over arbitrary sequences of [OScan] (the complete
-    scan_cached_blocks / put_blocks_rows row logic, including the nullifier map, the tracking
-    floor and the pruning), [OTip] and [OTrunc], started from the empty wallet.  What is NOT
-    proved here (and is checked on the implementation by [prop_case] against the generator's
-    ground truth, with the model tied to the implementation by [run_case]): that no spend in a
-    scanned block is missed (completeness of the spent status: the nullifier-map / floor / prune
-    argument), its consequences order independence and idempotence, and histories whose chain
-    changes (forks). *)
+    Model covered: [Model.run] over ARBITRARY sequences of [OScan] (the complete
+    scan_cached_blocks / put_blocks_rows row logic: unspent-nullifier set, mark_notes_spent,
+    nullifier map, tracking floor, pruning), [OTip] and [OTrunc] (rewind to any height), started
+    from the empty wallet, on one valid chain (consecutive heights, unique txids / output
+    nullifiers / revealed nullifiers, a note spent strictly above the block creating it).
+    The theorems say nothing when an operation of the sequence fails ([run] = Err); that the
+    real operations succeed and leave the same tables is what [run_case] checks.
+    The [C01_forks_*] theorems extend this to histories in which the best chain changes under
+    the wallet ([Spec.reach]: new blocks arriving, and rewinds followed by a different
+    continuation, with transactions dropped, re-mined at other heights, or replaced by
+    conflicting spends), all blocks ever offered forming a [valid_universe] (a txid names one
+    transaction, an output nullifier one output). *)
 From V.Lib Require Import Base.
 From V.Gen Require Import C01Consts.
-From V.C01 Require Import Model Spec Proofs.
+From V.C01 Require Import Model Spec Proofs Tables Chain Complete Ledger Corr Bridge.
 Local Open Scope N_scope.
 
 (** In every wallet state whatsoever, what the summary reports for an account and pool as
@@ -56,6 +62,182 @@ Theorem C01_receipts_complete :
       exists n, In n (w_notes s) /\ n_key n = o_key o /\ n_acct n = a /\ n_value n = o_value o.
 Proof. exact receipts_complete_lemma. Qed.
 
+
+(** Spend completeness.  After ANY sequence of scans (any ranges, order, chunking, repeats),
+    tip updates and rewinds on a valid chain: whenever the wallet holds both the block that
+    creates one of its notes and a block in which a transaction reveals that note's nullifier,
+    the note's row records that transaction as a spender and the transaction is recorded as
+    mined.  (Spend scanned after the receipt: found against the unspent-nullifier set; spend
+    scanned before the receipt: found through the nullifier map — which is why the map, the
+    tracking floor and the pruning must never lose an entry that is still needed.) *)
+Theorem C01_spends_complete :
+  forall birthday c ops s, valid_chain birthday c -> ops_on c ops -> run birthday init ops = Ok s ->
+  forall b t o b' t',
+    In b c -> In t (b_txs b) -> In o (t_outs t) -> owned o = true -> has_block (w_blocks s) (b_height b) = true ->
+    In b' c -> In t' (b_txs b') -> In (o_key o) (t_spends t') -> has_block (w_blocks s) (b_height b') = true ->
+    exists n, In n (w_notes s) /\ n_key n = o_key o /\ In (t_id t') (n_spent n) /\ row_mined (w_txs s) (t_id t') = true.
+Proof. exact spends_complete_lemma. Qed.
+
+(** nfmap_complete — the invariant behind it: in every reachable state, a nullifier revealed by
+    the [i]-th transaction of a scanned block, belonging to a note of the wallet whose creating
+    block is not (or no longer) scanned, is in the nullifier map with that block's locator, and
+    the locator resolves to the revealing transaction.  It survives the tracking floor (skipped
+    heights lie below a contiguous frontier), the pruning below fully_scanned - 100 and rewinds. *)
+Theorem C01_nfmap_complete :
+  forall birthday c ops s, valid_chain birthday c -> ops_on c ops -> run birthday init ops = Ok s ->
+  forall b t i o b0 t0,
+    In b c -> has_block (w_blocks s) (b_height b) = true -> nth_error (b_txs b) i = Some t -> In (o_key o) (t_spends t) ->
+    In b0 c -> In t0 (b_txs b0) -> In o (t_outs t0) -> owned o = true -> has_block (w_blocks s) (b_height b0) <> true ->
+    find_nf (o_key o) (w_nfmap s) = Some (b_height b, N.of_nat i)
+    /\ find_loc (b_height b) (N.of_nat i) (w_locs s) = Some (t_id t).
+Proof. exact nfmap_complete_lemma. Qed.
+
+(** The balance is the ledger, in the property's own words: for every account and pool, total
+    plus uneconomic value equals the sum of the outputs addressed to the account in the blocks
+    of the chain the wallet has scanned and not spent in blocks it has scanned ([ledger], Spec.v)
+    — provided no transaction orphaned by a rewind still counts: the un-mined rows have expired
+    at tip + 1, or every block of the chain is scanned. *)
+Theorem C01_balance_is_ledger :
+  forall birthday c ops s tp, valid_chain birthday c -> ops_on c ops -> run birthday init ops = Ok s ->
+  w_tip s = Some tp ->
+  orphans_dead s (tp + 1) \/ all_scanned c s ->
+  forall a p, bal_total s (tp + 1) a p + bal_uneconomic s (tp + 1) a p = ledger (scanned_blocks c s) a p.
+Proof. exact balance_is_ledger_lemma2. Qed.
+
+(** ... and unconditionally for histories without rewinds. *)
+Theorem C01_balance_is_ledger_without_rewinds :
+  forall birthday c ops s tp, valid_chain birthday c -> ops_on c ops -> (forall h, ~ In (OTrunc h) ops) ->
+  run birthday init ops = Ok s -> w_tip s = Some tp ->
+  forall a p, bal_total s (tp + 1) a p + bal_uneconomic s (tp + 1) a p = ledger (scanned_blocks c s) a p.
+Proof. exact balance_is_ledger_no_rewind. Qed.
+
+(** Order independence: two histories on the same chain that end with the same set of scanned
+    blocks and the same tip (and no live orphan) end with the same notes for every scanned
+    output, the same spent status and the same total and uneconomic balances. *)
+Theorem C01_order_independence :
+  forall birthday c ops1 ops2 s1 s2 tp,
+    valid_chain birthday c -> ops_on c ops1 -> ops_on c ops2 ->
+    run birthday init ops1 = Ok s1 -> run birthday init ops2 = Ok s2 ->
+    (forall m, has_block (w_blocks s1) m = true <-> has_block (w_blocks s2) m = true) ->
+    w_tip s1 = Some tp -> w_tip s2 = Some tp ->
+    settled c s1 tp -> settled c s2 tp ->
+    same_notes c s1 s2
+    /\ forall a p, bal_total s1 (tp + 1) a p = bal_total s2 (tp + 1) a p
+                   /\ bal_uneconomic s1 (tp + 1) a p = bal_uneconomic s2 (tp + 1) a p.
+Proof. exact order_independence_lemma. Qed.
+
+(** The headline: once every block of the chain is scanned — by whatever sequence of scans,
+    tip updates and rewinds — the notes table, the spent status of every note and every balance
+    are those of a fresh wallet that scanned the chain once, in height order. *)
+Theorem C01_same_as_linear_scan :
+  forall birthday c ops s sl,
+    valid_chain birthday c -> ops_on c ops ->
+    run birthday init ops = Ok s ->
+    run birthday init [OScan c] = Ok sl ->
+    all_scanned c s -> w_tip s = w_tip sl ->
+    notes_incl s sl /\ notes_incl sl s
+    /\ forall tp, w_tip s = Some tp -> forall a p,
+         bal_total s (tp + 1) a p = bal_total sl (tp + 1) a p
+         /\ bal_uneconomic s (tp + 1) a p = bal_uneconomic sl (tp + 1) a p.
+Proof. exact linear_scan_lemma. Qed.
+
+(** Idempotence: scanning a range again (from any reachable state) changes neither the set of
+    scanned blocks, nor the tip, nor the notes and spent status of scanned outputs, nor — when
+    no orphan is alive — any balance.  (The nullifier map may gain entries: a spend that is
+    already recorded is no longer in the unspent set and is tracked instead; harmless.) *)
+Theorem C01_scan_idempotent :
+  forall birthday c ops s bs s1 s2,
+    valid_chain birthday c -> ops_on c ops -> run birthday init ops = Ok s -> incl bs c ->
+    scan birthday s bs = Ok s1 -> scan birthday s1 bs = Ok s2 ->
+    (forall m, has_block (w_blocks s2) m = true <-> has_block (w_blocks s1) m = true)
+    /\ w_tip s2 = w_tip s1
+    /\ same_notes c s1 s2
+    /\ forall tp, w_tip s1 = Some tp -> settled c s1 tp -> forall a p,
+         bal_total s2 (tp + 1) a p = bal_total s1 (tp + 1) a p
+         /\ bal_uneconomic s2 (tp + 1) a p = bal_uneconomic s1 (tp + 1) a p.
+Proof. exact scan_idempotent_lemma. Qed.
+
+(** ** Histories whose chain changes: rewind followed by a different continuation *)
+
+(** Nothing is created or counted twice, whatever happened to the chain: every note row is an
+    output of some block the wallet was offered, every recorded spender reveals the nullifier,
+    no two rows share a nullifier, and every block held as scanned is a block of the CURRENT
+    best chain. *)
+Theorem C01_forks_ledger_sound :
+  forall U birthday c s, valid_universe U -> reach U birthday c s ->
+    (forall n, In n (w_notes s) ->
+       (exists b t o, In b U /\ In t (b_txs b) /\ In o (t_outs t) /\ o_owner o = Some (n_acct n)
+                      /\ o_key o = n_key n /\ o_value o = n_value n /\ t_id t = n_recv n)
+       /\ (forall tid, In tid (n_spent n) ->
+             exists b t, In b U /\ In t (b_txs b) /\ t_id t = tid /\ In (n_key n) (t_spends t)))
+    /\ NoDup (map n_key (w_notes s))
+    /\ (forall h x, In (h, x) (w_blocks s) -> exists b, In b c /\ b_height b = h /\ b_hash b = x).
+Proof. exact forks_sound_lemma. Qed.
+
+(** Spend completeness with respect to the current best chain, after any history of scans, tip
+    updates, rewinds and chain replacements. *)
+Theorem C01_forks_spends_complete :
+  forall U birthday c s, valid_universe U -> reach U birthday c s ->
+  forall b t o b' t',
+    In b c -> In t (b_txs b) -> In o (t_outs t) -> owned o = true -> has_block (w_blocks s) (b_height b) = true ->
+    In b' c -> In t' (b_txs b') -> In (o_key o) (t_spends t') -> has_block (w_blocks s) (b_height b') = true ->
+    exists n, In n (w_notes s) /\ n_key n = o_key o /\ In (t_id t') (n_spent n) /\ row_mined (w_txs s) (t_id t') = true.
+Proof. exact forks_spends_complete_lemma. Qed.
+
+(** The balance is the ledger of the scanned blocks of the current best chain as soon as the
+    transactions orphaned by rewinds have expired ("apart from transactions orphaned by a
+    rewind, which stop counting once they expire"). *)
+Theorem C01_forks_balance_is_ledger :
+  forall U birthday c s tp, valid_universe U -> reach U birthday c s ->
+  w_tip s = Some tp -> orphans_dead s (tp + 1) ->
+  forall a p, bal_total s (tp + 1) a p + bal_uneconomic s (tp + 1) a p = ledger (scanned_blocks c s) a p.
+Proof. exact forks_balance_lemma. Qed.
+
+(** Two histories — over whatever branches — that end on the same best chain with the same
+    scanned blocks, the same tip and no live orphan end with the same notes, spent status and
+    balances. *)
+Theorem C01_forks_order_independence :
+  forall U birthday c s1 s2 tp, valid_universe U ->
+    reach U birthday c s1 -> reach U birthday c s2 ->
+    (forall m, has_block (w_blocks s1) m = true <-> has_block (w_blocks s2) m = true) ->
+    w_tip s1 = Some tp -> w_tip s2 = Some tp ->
+    orphans_dead s1 (tp + 1) -> orphans_dead s2 (tp + 1) ->
+    same_notes c s1 s2
+    /\ forall a p, bal_total s1 (tp + 1) a p = bal_total s2 (tp + 1) a p
+                   /\ bal_uneconomic s1 (tp + 1) a p = bal_uneconomic s2 (tp + 1) a p.
+Proof. exact forks_order_independence_lemma. Qed.
+
+(** ... in particular the same as a fresh wallet that scans the final best chain once, in height
+    order (orphaned notes and rows of abandoned branches may remain in the tables; they no
+    longer count). *)
+Theorem C01_forks_same_as_linear_scan :
+  forall U birthday c s sl tp, valid_universe U ->
+    reach U birthday c s ->
+    run birthday init [OScan c] = Ok sl ->
+    all_scanned c s -> w_tip s = Some tp -> w_tip sl = Some tp -> orphans_dead s (tp + 1) ->
+    same_notes c s sl /\ same_notes c sl s
+    /\ forall a p, bal_total s (tp + 1) a p = bal_total sl (tp + 1) a p
+                   /\ bal_uneconomic s (tp + 1) a p = bal_uneconomic sl (tp + 1) a p.
+Proof. exact forks_linear_scan_lemma. Qed.
+
+(** Bridge (partial) between correspondence and property.  For a history all of whose scanned
+    batches come from one valid chain: if the model reproduces every outcome and every dump
+    ([run_case]), then on every dump the balances the implementation reported are the
+    ground-truth ledger of the blocks scanned so far whenever the dump shows no live orphan
+    ([ledger_steps], which is a conjunct of [prop_case], next theorem).  The other conjuncts of
+    [prop_case] and histories with forks are not bridged. *)
+Theorem C01_bridge_ledger_partial :
+  forall (c : list block) (n : N) (steps : list stepc) (lin : option dump),
+    valid_chain BIRTHDAY c ->
+    (forall bs r d, In (SScan bs r d) steps -> incl bs c) ->
+    run_case (Hist n steps lin) = true ->
+    ledger_steps [] steps = true.
+Proof. exact bridge_ledger_lemma. Qed.
+
+Theorem C01_bridge_clause_of_prop_case :
+  forall (l : list stepc) (S : list block), fst (prop_steps S l) = true -> ledger_steps S l = true.
+Proof. exact prop_steps_ledger. Qed.
+
 (** A transaction un-mined by a rewind whose expiry is unknown stops counting (as a spender
     and as a receiver) once the target height passes its first observation by more than the
     default expiry delta. *)
@@ -86,8 +268,25 @@ Example ex_out_of_order :
   end.
 Proof. vm_compute. reflexivity. Qed.
 
-Example ex_hypotheses : heights_from 10 ex_chain /\ NoDup (map o_key (all_outs ex_chain)).
-Proof. split; [cbn; auto|]. cbn. repeat constructor; cbn; intuition discriminate. Qed.
+Example ex_valid : valid_chain 10 ex_chain.
+Proof.
+  constructor.
+  - cbn; auto.
+  - cbn. repeat constructor; cbn; intuition discriminate.
+  - cbn. repeat constructor; cbn; intuition discriminate.
+  - cbn. repeat constructor; cbn; intuition discriminate.
+  - intros k hs hc [b [t [Hb [Hh [Ht Hk]]]]] [b' [t' [o [Hb' [Hh' [Ht' [Ho [Hoo Hko]]]]]]]].
+    cbn in Hb, Hb'. intuition (subst; cbn in *; intuition (subst; cbn in *; try discriminate; try lia; intuition (subst; cbn in *; try discriminate; try lia))).
+Qed.
+
+(** the hypotheses of the headline theorem are satisfiable: an out-of-order history with a
+    rewind in the middle, against the linear scan *)
+Example ex_headline :
+  exists s sl,
+    run 10 init [OScan (skipn 1 ex_chain); OTip 12; OScan (firstn 1 ex_chain); OTrunc 10; OScan (skipn 1 ex_chain)] = Ok s
+    /\ run 10 init [OScan ex_chain] = Ok sl /\ w_tip s = w_tip sl
+    /\ forallb (fun b => has_block (w_blocks s) (b_height b)) ex_chain = true.
+Proof. eexists. eexists. vm_compute. repeat split; reflexivity. Qed.
 
 (** Why a note must be spent strictly above the block creating it (consensus guarantees it):
     a spend in the same block is not detected — the note stays unspent in the model (and in
@@ -98,3 +297,58 @@ Example ex_same_block_spend_missed :
   | _ => False
   end.
 Proof. vm_compute. split; reflexivity. Qed.
+
+(** a reorganisation: block 11 is replaced, the spending transaction 2 is re-mined in the new
+    block 12; the wallet scans the old branch, rewinds to 10 and scans the new one *)
+Definition ex_chain2 : list block :=
+  [ mkBlock 10 1 0 [mkTx 1 [] [mkOut (Some 0) 1 70000 5; mkOut None 0 9 6]];
+    mkBlock 11 20 1 [];
+    mkBlock 12 21 20 [mkTx 2 [(1, 5)] [mkOut (Some 0) 1 4000 7]] ].
+Definition ex_universe : list block := ex_chain ++ skipn 1 ex_chain2.
+
+Example ex_valid2 : valid_chain 10 ex_chain2.
+Proof.
+  constructor.
+  - cbn; auto.
+  - cbn. repeat constructor; cbn; intuition discriminate.
+  - cbn. repeat constructor; cbn; intuition discriminate.
+  - cbn. repeat constructor; cbn; intuition discriminate.
+  - intros k hs hc [b [t [Hb [Hh [Ht Hk]]]]] [b' [t' [o [Hb' [Hh' [Ht' [Ho [Hoo Hko]]]]]]]].
+    cbn in Hb, Hb'. intuition (subst; cbn in *; intuition (subst; cbn in *; try discriminate; try lia; intuition (subst; cbn in *; try discriminate; try lia))).
+Qed.
+
+Example ex_universe_valid : valid_universe ex_universe.
+Proof.
+  constructor.
+  - intros b t b' t' Hb Ht Hb' Ht' E. cbn in Hb, Hb'.
+    intuition (subst; cbn in *; intuition (subst; cbn in *; try discriminate; try reflexivity)).
+  - intros b t o b' t' o' Hb Ht Ho Hb' Ht' Ho' E. cbn in Hb, Hb'.
+    intuition (subst; cbn in *; intuition (subst; cbn in *; intuition (subst; cbn in *; try discriminate; auto))).
+Qed.
+
+Example ex_fork_reach :
+  exists s, reach ex_universe 10 ex_chain2 s
+            /\ forallb (fun b => has_block (w_blocks s) (b_height b)) ex_chain2 = true
+            /\ w_tip s = Some 12
+            /\ forallb (fun r => is_some (x_mined r)) (w_txs s) = true.
+Proof.
+  destruct (run 10 init [OScan ex_chain; OTrunc 10]) as [s1| |] eqn:E1; try (vm_compute in E1; discriminate).
+  destruct (scan 10 s1 (skipn 1 ex_chain2)) as [s2| |] eqn:E2;
+    try (vm_compute in E1; inversion E1; subst; vm_compute in E2; discriminate).
+  exists s2. split.
+  - apply (reach_op ex_universe 10 ex_chain2 s1 (OScan (skipn 1 ex_chain2)) s2); [| | exact E2].
+    + apply (reach_switch ex_universe 10 ex_chain s1 ex_chain2 10).
+      * cbn [run] in E1. destruct (step 10 init (OScan ex_chain)) as [s0| |] eqn:E0; try discriminate.
+        apply (reach_op ex_universe 10 ex_chain s0 (OTrunc 10) s1); [| intros bs H; discriminate | ].
+        -- apply (reach_op ex_universe 10 ex_chain init (OScan ex_chain) s0); [| | exact E0].
+           ++ apply reach_init; [exact ex_valid | intros x Hx; apply in_or_app; left; exact Hx].
+           ++ intros bs H. inversion H; subst. apply incl_refl.
+        -- destruct (step 10 s0 (OTrunc 10)) as [sx| |]; inversion E1; reflexivity.
+      * vm_compute in E1. inversion E1; subst. intros m Hm. unfold has_block in Hm. cbn [w_blocks find_block] in Hm.
+        destruct (N.eqb 10 m) eqn:Em; [apply N.eqb_eq in Em; lia | cbn in Hm; discriminate].
+      * intros b Hle. cbn. split; intros [<- | [<- | [<- | []]]]; cbn in Hle; try lia; auto.
+      * exact ex_valid2.
+      * intros x Hx. cbn in Hx. cbn. intuition.
+    + intros bs H. inversion H; subst. intros x Hx. cbn in Hx. cbn. intuition.
+  - vm_compute in E1. inversion E1; subst. vm_compute in E2. inversion E2; subst. vm_compute. auto.
+Qed.
